@@ -24,6 +24,23 @@ fn main() {
     if get("loud", "0") == "0" {
         vh::quiet_panics();
     }
+    // Every multi-threaded monitor also runs under parking_lot's deadlock detector (foyer is built with its `deadlock`
+    // feature): a lock cycle among foyer's parking_lot locks ends the shard with exit code 86 and the thread backtraces.
+    if cmd != "c16" {
+        std::thread::spawn(|| loop {
+            std::thread::sleep(std::time::Duration::from_millis(200));
+            let cycles = parking_lot::deadlock::check_deadlock();
+            if !cycles.is_empty() {
+                eprintln!("PARKING_LOT DEADLOCK DETECTED: {} cycle(s)", cycles.len());
+                for (i, threads) in cycles.iter().enumerate() {
+                    for t in threads {
+                        eprintln!("cycle {i} thread {:?}\n{:?}", t.thread_id(), t.backtrace());
+                    }
+                }
+                std::process::exit(86);
+            }
+        });
+    }
     let res: ShardResult = match cmd.as_str() {
         "memseq" => {
             let prop = match get("prop", "C05").as_str() {
